@@ -693,6 +693,11 @@ inline int ParsePair(
   while (p != end && !isdigitchars(*p)) {
     ++p;
   }
+  if (p == end) {
+    // nothing follows the colon: converting at `end` would read past the range
+    *endptr = end;
+    return 1;
+  }
   q = p;
   while (q != end && isdigitchars(*q)) {
     ++q;
@@ -744,6 +749,11 @@ inline int ParseTriple(
   while (p != end && !isdigitchars(*p)) {
     ++p;
   }
+  if (p == end) {
+    // nothing follows the colon: converting at `end` would read past the range
+    *endptr = end;
+    return 1;
+  }
   q = p;
   while (q != end && isdigitchars(*q)) {
     ++q;
@@ -761,6 +771,11 @@ inline int ParseTriple(
   p++;
   while (p != end && !isdigitchars(*p)) {
     ++p;
+  }
+  if (p == end) {
+    // nothing follows the colon: converting at `end` would read past the range
+    *endptr = end;
+    return 2;
   }
   q = p;
   while (q != end && isdigitchars(*q)) {
